@@ -6,6 +6,7 @@ import (
 	_ "verif/c04"
 	_ "verif/c05"
 	_ "verif/c06"
+	_ "verif/c07"
 	_ "verif/c08"
 	_ "verif/c09"
 	_ "verif/c10"
